@@ -92,12 +92,34 @@ func scnPrioCrashFailoverChain(name string) *Scenario {
 	return s
 }
 
+// scnTakeoverAfterHealthStepdown: A (priority 2, takeover enabled, health checker) leads,
+// steps down after three unhealthy results and is healthy again from then on; 100 ms later an
+// outside party replaces A's lapsing record by one for Z with priority 1, which stays for a
+// TTL. A follows a lower-priority record and has to take over within 3H.
+func scnTakeoverAfterHealthStepdown(name string) *Scenario {
+	s := K2(&Scenario{Name: name})
+	s.Insts = []InstSpec{{ID: "A", Priority: 2, Takeover: true, Health: []string{"ok", "bad", "bad", "bad", "ok"}, MaxFail: 3}}
+	s.Script = starts("A")
+	z := `{"id":"Z","token":"tz","priority":1}`
+	s.Script = append(s.Script,
+		Item{At: 4*s.H + 100*ms + 3*us, Actor: "outside", Do: "delete", Fixed: true},
+		Item{At: 4*s.H + 100*ms + 5*us, Actor: "outside", Do: "put", Payload: z, Fixed: true})
+	s.Horizon = 4*s.H + 100*ms + s.TTL + 4*s.H
+	s.Tags = map[string]string{"c10": "later-record"}
+	s.LatencyBound = s.H / 10
+	s.DelayMenu = []time.Duration{s.H / 10}
+	s.DevFrom = 4 * s.H
+	s.MaxSteps = 3000
+	return s
+}
+
 func c10Plan(tier string) []PlanItem {
 	var items []PlanItem
 	d := 1
 	if tier == "thorough" {
 		d = 2
 	}
+	items = append(items, PlanItem{scnTakeoverAfterHealthStepdown("takeover-after-health-stepdown-K2"), d})
 	orders2 := [][]string{{"A", "B"}, {"B", "A"}}
 	for i, oa := range prioOpts {
 		for j, ob := range prioOpts {
@@ -153,7 +175,7 @@ func init() {
 	oracles["C10"] = oracleC10
 	props["C10"] = &propDef{
 		Level:  "exploration",
-		Rule:   "full lattice of assignments of (Priority in {0,1,2}, takeover off/on; takeover requires priority>0) to 2 and 3 instances x start orders; safety on every execution with <= D deviations under latencies < H/2 (interleavings of the takeover's Get/Update with the incumbent's heartbeat, watch delay/duplication, start order moved to every choice point); promptness on the '/prompt' scenarios (latencies <= H/10, a lower-priority leader already established); one 4-instance scenario in the thorough tier; non-trivial = a live record was replaced by another instance or a takeover-enabled instance ran next to a leader",
+		Rule:   "full lattice of assignments of (Priority in {0,1,2}, takeover off/on; takeover requires priority>0) to 2 and 3 instances x start orders; safety on every execution with <= D deviations under latencies < H/2 (interleavings of the takeover's Get/Update with the incumbent's heartbeat, watch delay/duplication, start order moved to every choice point); promptness on the '/prompt' scenarios (latencies <= H/10, a lower-priority leader already established) and for an instance that led, stepped down for health, recovered and then meets a lower-priority record; one 4-instance scenario in the thorough tier; non-trivial = a live record was replaced by another instance or a takeover-enabled instance ran next to a leader",
 		Assume: []string{"5 instances are not run (cost); priorities limited to {0,1,2}", "promptness bound: 3H from the Start of the takeover-enabled instance plus the latency injected into its operations"},
 		Plan:   c10Plan,
 	}
@@ -183,7 +205,7 @@ func oracleC10(r *Result) ([]Violation, bool) {
 			s.add(op.TApply, "takeover-not-strictly-higher/"+op.Label, "%s (priority %d) replaced the live record rev %d of %s whose stored priority is %d (old payload %s, new payload %s)", op.Inst, spec.Priority, cur.Rev, cur.By, cp.Prio, string(cur.Val), string(op.Val))
 		}
 	}
-	if r.Scn.Tags["c10"] != "prompt" {
+	if r.Scn.Tags["c10"] != "prompt" && r.Scn.Tags["c10"] != "later-record" {
 		return s.vs, nontrivial
 	}
 	// ---- promptness
@@ -249,7 +271,11 @@ func oracleC10(r *Result) ([]Violation, bool) {
 					if c2, ok2 := qualifies(m); ok2 {
 						cp, ok0, t0 = c2, true, m.At
 					}
-					break // only the first change after the start: later ones are consequences
+					if ok0 || r.Scn.Tags["c10"] != "later-record" {
+						break // only the first change after the start: later ones are consequences
+					}
+					// (scenarios tagged later-record: the instance leads first and meets the
+					// lower-priority record of somebody else in a later phase of the run)
 				}
 			}
 		}
